@@ -7,6 +7,12 @@
 // earlier, rarely a leaving record of a key that was never listed). After Prepare and again after
 // Action: over GetAllEligibleValidatorsPublicKeys ∪ GetAllWaitingValidatorsPublicKeys of the new epoch
 // every key occurs once overall, and GetValidatorWithPublicKey reports the shard it is listed in.
+// Half of the changes see a competing epoch start block first (other validator info and randomness, both
+// derived from the same previous configuration): either it is replaced before the epoch starts (the
+// epoch is prepared twice), or the epoch is started with it and the chain is then reverted to the start
+// block of the previous epoch (EpochStartPrepare(previous header, nil) + EpochStartAction(previous
+// header), what the epoch start trigger sends on RevertStateToBlock) before the final block is
+// prepared. The same oracles apply after every Prepare and Action, of the abandoned block too.
 package main
 
 import (
@@ -22,7 +28,7 @@ import (
 func main() {
 	_ = logger.SetLogLevel("*:NONE")
 	r := vk.Start("C16")
-	r.Rule("histories of 3-6 consecutive epoch changes on coordinators with 1-3 shards + metachain, group sizes 1-4, eligible 1x-3x group size, waiting 0-4, intra- or cross-shard shuffling, waiting-list fix activating before/at/after the history's epochs, plain or rater variant (ratings below the minimum chance give additional leaving); a quarter of the histories over a boot storer whose Put fails (during one epoch change of the history, or at random); per change a leaving rate of 0/5/15/40/80 %, 0-4 new keys, inactive/jailed records; a transition is non-trivial when the new epoch was installed; distinct = distinct (shards, fix active, cross, rater, #leaving records, #new, #validators that changed shard, step)")
+	r.Rule("histories of 3-6 consecutive epoch changes on coordinators with 1-3 shards + metachain, group sizes 1-4, eligible 1x-3x group size, waiting 0-4, intra- or cross-shard shuffling, waiting-list fix activating before/at/after the history's epochs, plain or rater variant (ratings below the minimum chance give additional leaving); a quarter of the histories over a boot storer whose Put fails (during one epoch change of the history, or at random); per change a leaving rate of 0/5/15/40/80 %, 0-4 new keys, inactive/jailed records; half of the changes first see a competing epoch start block (other records, ratings and randomness from the same previous configuration) that is either replaced before the epoch starts or started and then reverted to the previous epoch's start block (Prepare(previous header, nil) + Action(previous header)); a transition is non-trivial when the new epoch was installed; distinct = distinct (shards, fix active, cross, rater, #leaving records, #new, #validators that changed shard, step, single/replaced/reverted)")
 	r.Assume("validator-info records are consistent with the previous configuration: a listed validator is reported with the shard it is listed in, as eligible/waiting or leaving; keys are never reported twice in one body", "an epoch change that the coordinator refuses (shuffler error or a shard below the group size) ends the history and is counted, not judged")
 	r.MinShapes(100)
 	n := r.N(2000, 60000)
@@ -62,6 +68,9 @@ func main() {
 		}
 		var history []interface{}
 		goneSet := map[string]bool{}
+		modeRng := rng.Fork()
+		// the start block of the current epoch (what a revert of the next epoch start goes back to)
+		prevHdr := sg.Header(epoch, modeRng.Bytes(32))
 		for step := 1; step <= steps; step++ {
 			var gone []string
 			for k := range goneSet {
@@ -85,6 +94,7 @@ func main() {
 
 			failNow = step == faultStep
 			failedBefore := faulty.Failed
+			mode := []string{"single", "single", "replaced-before-start", "reverted-after-start"}[modeRng.Intn(4)]
 			class := func() string {
 				if faulty.Failed > failedBefore {
 					return " class=after-save-fault"
@@ -150,6 +160,35 @@ func main() {
 				return cfg, !bad
 			}
 
+			// a competing epoch start block for the same epoch, abandoned later: derived from the same
+			// previous configuration with other leaving/new records, ratings and randomness
+			var cfgX *sg.Config
+			if mode != "single" {
+				xr := modeRng.Fork()
+				infosX := sg.GenInfos(spec, prev, gone, xr)
+				hdrX := sg.Header(newEpoch, xr.Bytes(32))
+				history[len(history)-1].(map[string]interface{})["abandonedBlock"] = map[string]interface{}{"how": mode, "prevRandSeed": vk.Hex(hdrX.PrevRandSeed), "validatorInfos": sg.DumpInfos(infosX)}
+				co.EpochStartPrepare(hdrX, sg.MakeBody(infosX, xr))
+				var okX bool
+				cfgX, okX = check("after EpochStartPrepare of the block that is abandoned later (" + mode + ")")
+				if cfgX != nil && !okX {
+					return
+				}
+				if cfgX == nil {
+					r.Count("abandoned_block_refused", 1)
+				} else if mode == "replaced-before-start" {
+					r.Count("epochs_prepared_twice_before_their_start", 1)
+				} else {
+					co.EpochStartAction(hdrX)
+					if c2, ok2 := check("after EpochStartAction of the block that is abandoned later"); c2 != nil && !ok2 {
+						return
+					}
+					// revert to the start block of the previous epoch, as the trigger notifies it
+					co.EpochStartPrepare(prevHdr, nil)
+					co.EpochStartAction(prevHdr)
+					r.Count("epochs_started_then_reverted_and_prepared_again", 1)
+				}
+			}
 			co.EpochStartPrepare(hdr, body)
 			cfg, ok := check("after EpochStartPrepare")
 			if cfg == nil {
@@ -205,7 +244,39 @@ func main() {
 				delete(goneSet, k)
 			}
 			fix := newEpoch >= spec.FixEpoch
-			r.Shape(fmt.Sprintf("n%d fix%v x%v rater%v lv%d new%d moved%d step%d", spec.NbShards, fix, spec.Cross, spec.Rater, nLeaving, nNew, moved, step))
+			if cfgX != nil {
+				// how the abandoned block and the final one differ: validators placed in different shards, and
+				// leaving records of the final block for validators the abandoned block had moved elsewhere
+				shardX := map[string]uint32{}
+				for s, l := range cfgX.Eligible {
+					for _, k := range l {
+						shardX[k] = s
+					}
+				}
+				for s, l := range cfgX.Waiting {
+					for _, k := range l {
+						shardX[k] = s
+					}
+				}
+				diff := 0
+				for k, s := range now {
+					if sx, in := shardX[k]; in && sx != s {
+						diff++
+					}
+				}
+				lvMoved := 0
+				for _, inf := range infos {
+					if sx, in := shardX[inf.Key]; in && inf.List == "leaving" && sx != inf.Shard {
+						lvMoved++
+					}
+				}
+				r.Count("validators_placed_in_another_shard_than_by_the_abandoned_block", diff)
+				r.Count("leaving_records_of_validators_the_abandoned_block_had_moved", lvMoved)
+				if mode == "reverted-after-start" && fix && spec.Cross {
+					r.Count("leaving_records_of_validators_the_reverted_start_had_moved_fix_on", lvMoved)
+				}
+			}
+			r.Shape(fmt.Sprintf("n%d fix%v x%v rater%v lv%d new%d moved%d step%d %s", spec.NbShards, fix, spec.Cross, spec.Rater, nLeaving, nNew, moved, step, mode))
 			r.Count("epoch_changes_installed", 1)
 			if n := faulty.Failed - failedBefore; n > 0 {
 				r.Count("epoch_changes_with_refused_saves", 1)
@@ -224,8 +295,12 @@ func main() {
 			}
 			prev = cfg
 			epoch = newEpoch
+			prevHdr = hdr
 		}
 	})
+	if r.ReplayCase < 0 && (r.Counter("validators_placed_in_another_shard_than_by_the_abandoned_block") == 0 || r.Counter("epochs_started_then_reverted_and_prepared_again") == 0) {
+		r.Inconclusive("no epoch was prepared from two competing blocks that place a validator differently, or none was reverted after its start")
+	}
 	if r.Counter("validators_that_changed_shard") == 0 && r.ReplayCase < 0 {
 		r.Inconclusive("no validator ever changed shard: the lookup half of the oracle saw nothing")
 	}
